@@ -17,8 +17,8 @@ def read_cases(path):
     with open(path) as f:
         for line in f:
             a = line.rstrip("\n").split("\t")
-            a += [""] * (5 - len(a))
-            rows.append(a[:5])
+            a += [""] * (6 - len(a))
+            rows.append(a[:6])
     return rows
 
 
@@ -86,7 +86,7 @@ def main(argv):
                 if a[0] != b[0]:
                     raise RuntimeError("case/model id mismatch %r %r" % (a[0], b[0]))
                 n += 1
-                cid, toks, impl, blockval, src = a
+                cid, toks, impl, blockval, src, ctx = a
                 model, spec, tag = b[1], b[2], b[3]
                 byid[cid] = a
                 rec = {"text": "{" + unesc(src) + "}", "tokens": toks, "implementation": impl, "model": model, "specification": spec}
@@ -127,7 +127,7 @@ def main(argv):
                 pf = os.path.join(common.BUILD, "C06.prefix")
                 with open(pf, "w") as f:
                     for cid, forms, _ in stage2:
-                        f.write("%s\t%s\n" % (cid, forms))
+                        f.write("%s\t%s\t%s\n" % (cid, byid[cid][5], forms))
                 exe = os.path.join(common.BUILD, "c06")
                 p2 = os.path.join(common.BUILD, "C06.prefix.cases")
                 rc, out = common.sh([exe, "--seed", str(c.seed), "--tier", c.tier, "--out", p2,
@@ -148,7 +148,7 @@ def main(argv):
                             if a[3] != obs:
                                 val_fail.append({"text": "{" + unesc(a[4]) + "}", "tokens": a[1],
                                                  "prefix_forms": [unesc(z) for z in forms_by_id[cid].split(" ;; ")],
-                                                 "forms_from": which[cid],
+                                                 "forms_from": which[cid], "context": a[5] or "top level",
                                                  "block_value_and_effects": a[3], "prefix_forms_value_and_effects": obs,
                                                  "implementation": a[2]})
                     c.coverage["evaluated_block_vs_specification_prefix_forms"] = nv["spec"]
